@@ -319,6 +319,47 @@ def _solve(base, neg, timeout_ms):
     return s, str(r), dt
 
 
+_WIT_RNG = {}
+
+
+def _wit_rng(label):
+    import random
+    import zlib
+    if label not in _WIT_RNG:
+        _WIT_RNG[label] = random.Random(zlib.crc32(label.encode()) ^ 0x5bd1e995)
+    return _WIT_RNG[label]
+
+
+def _diverse_model(solver, label):
+    """a model of the (satisfiable) path assumptions that is not the solver's favourite all-zeros one: input bits are
+    pinned one after the other to pseudo-random values (seeded by the harness label) whenever that keeps the assumptions
+    satisfiable.  Used for witness validation only; any model would be sound."""
+    import random
+    import zlib
+    rnd = random.Random(zlib.crc32(label.encode()))
+    vars_ = []
+    for name, (shape, flat) in STORE.inputs.items():
+        for x in flat:
+            if isinstance(x, SV) and z3.is_const(x.e) and x.e.decl().kind() == z3.Z3_OP_UNINTERPRETED:
+                vars_.append(x)
+    rnd.shuffle(vars_)
+    solver.set('timeout', 2000)
+    t0 = time.time()
+    for x in vars_[:80]:
+        if time.time() - t0 > 5:
+            break
+        v = rnd.randint(x.lo, x.hi)
+        solver.push()
+        solver.add(x.e == z3.BitVecVal(v, x.e.size()))
+        if str(solver.check()) != 'sat':
+            solver.pop()
+    if str(solver.check()) != 'sat':
+        while solver.num_scopes():
+            solver.pop()
+        solver.check()
+    return solver.model()
+
+
 XCHECK = dict(left=0, done=0, agree=0, skipped=0, errors=[])
 
 
@@ -441,10 +482,16 @@ def run_job(job, packages, known, replay_dir):
             wit = None
             if r == 'sat':
                 rec['vacuity_witnesses'] += 1
-                if len(rec['witnesses']) < job.get('witnesses', 1):
+                # witnesses for validation on the real build: reservoir sampling over the clean paths (seeded by the label),
+                # so that not only the first path (the solver's all-zero choices) is replayed
+                n_clean = rec.setdefault('_clean_paths', 0) + 1
+                rec['_clean_paths'] = n_clean
+                W = job.get('witnesses', 2)
+                take = len(rec['witnesses']) < W or _wit_rng(job['label']).random() < W / n_clean
+                if take:
                     try:
                         wit = dict(property=job['prop'], harness=list(job['harness']), params=job['params'], label=job['label'],
-                                   goal='*', inputs=extract_inputs(s.model()), tags={}, notes=[])
+                                   goal='*', inputs=extract_inputs(_diverse_model(s, job['label'])), tags={}, notes=[])
                     except Exception:
                         wit = None
             elif r == 'unsat':
@@ -506,7 +553,10 @@ def run_job(job, packages, known, replay_dir):
             if wit is not None and path_clean and not stop:
                 # every goal of this path was discharged for all inputs: the witness must satisfy all of them on the real build
                 wit['goals'] = [g for g, _ in env.goals]
-                rec['witnesses'].append(wit)
+                if len(rec['witnesses']) < job.get('witnesses', 2):
+                    rec['witnesses'].append(wit)
+                else:
+                    rec['witnesses'][_wit_rng(job['label']).randrange(len(rec['witnesses']))] = wit
             rec['max_abs'] = max(rec['max_abs'], STORE.max_abs)
             rec['assumptions'] = sorted(set(rec['assumptions']) | set(a for a in env.assumptions if a))
     except PathLimit:
